@@ -25,6 +25,8 @@ for sid in sys.argv[1:]:
     rc = rcs.get(sid)
     if rc == 1 and det:
         result = "detected (exit 1, VIOLATION line, counterexample reproduced natively)"
+    elif rc == 0 and plan.get(sid, {}).get("expect") == "no_alarm":
+        result = "no alarm (exit 0), as expected: the change does not break the property as the check reads it (see why_missed)"
     elif rc == 0:
         result = "missed (exit 0)"
     else:
